@@ -299,6 +299,24 @@ def _alarm(signum, frame):
 CASE_SECONDS = int(os.environ.get("VERIF_CASE_SECONDS", "45"))
 
 
+def guarded_witness(rep: Report, text, fn, *args, seconds=240, **kw):
+    """a directed witness (a small fixed model that the unchanged implementation handles in a second or two): run like
+    guarded(), but with a generous limit, and a witness that is still not done after that is reported - code that cannot
+    be produced for a five-line model is not code that computes what the model defines"""
+    global CASE_SECONDS
+    before = dict(rep.counts) if hasattr(rep, "counts") else {}
+    limit, CASE_SECONDS = CASE_SECONDS, seconds
+    try:
+        r = guarded(rep, text, fn, *args, **kw)
+    finally:
+        CASE_SECONDS = limit
+    key = "cases_abandoned_after_%ds" % seconds
+    if hasattr(rep, "counts") and rep.counts.get(key, 0) > before.get(key, 0):
+        rep.violation(f"a directed witness is not finished after {seconds} s (loading, generating, compiling and evaluating it takes about a second on the unchanged tree)",
+                      {"kind": "direct", "text": text})
+    return r
+
+
 def guarded(rep: Report, text, fn, *args, **kw):
     """run one case; an exception escaping the case logic means the implementation behaved in a
     way the check does not expect (e.g. a generated function is missing): reported with the case
